@@ -130,13 +130,18 @@ def make_case(seed, index, tier):
         producers[0]['ops'].insert(0, {'offset': 0, 'op': 'burst', 'n': burst})
         consumers = consumers[:2]
         consumers[0].update(mode='iter', count=10 ** 9, offset=2, work=0.001)
-    return {'seed': seed, 'index': index, 'tier': tier, 'burst': burst,
+    case = {'seed': seed, 'index': index, 'tier': tier, 'burst': burst,
             'scenario': {'producers': producers, 'consumers': consumers},
             'twins': rng.random() < 0.4, 'reused': rng.random() < 0.4,
             'nones': rng.random() < 0.25, 'early': rng.random() < 0.3,
             'odd': rng.random() < 0.25,
             # a clock that absorbs every delay of the scenario (one date, many batches)
             'start': rng.choice([1.7e18, 2.0 ** 70, -1.5, -1, -0.5]) if rng.random() < 0.09 and not burst else 0}
+    if burst > 1000:
+        # (a None payload carries no id: the checker looks every one of them up in the buffer,
+        # which is quadratic in the backlog - ten minutes per execution for 70000 items)
+        case['nones'] = False
+    return case
 
 
 class QueueChecker:
